@@ -29,6 +29,9 @@ CONFIGS = {
     'P':   ('', '', [], '-O2'),
     'PZ':  ('', '', ['USINGZ'], '-O2'),
     'PH':  ('', '', ['CLIPPER2_HI_PRECISION=1'], '-O2'),
+    # valgrind memcheck engine (C10): plain build with DWARF 4 (valgrind 3.19 cannot read clang's DWARF 5)
+    'V':   ('', '', [], '-O1'),
+    'VZ':  ('', '', ['USINGZ'], '-O1'),
     # diagnostics only (./check reach): source-based coverage of the library TUs under a property's workload
     'COV':  ('', '', [], '-O1'),
     'COVZ': ('', '', ['USINGZ'], '-O1'),
@@ -52,7 +55,7 @@ def lib_root():
 
 def flags_for(cfg):
     san, nosan, defs, opt = CONFIGS[cfg]
-    common = ['-std=c++17', opt, '-g', '-fno-omit-frame-pointer']
+    common = ['-std=c++17', opt, '-g', '-fno-omit-frame-pointer'] + (['-gdwarf-4'] if cfg.startswith('V') else [])
     sanflags = []
     if san:
         sanflags.append('-fsanitize=' + san)
